@@ -140,6 +140,54 @@ def job_tree_violation(db):
     return None
 
 
+def context_leg(ctx):
+    """The sub-workflow sees the calling job's context (given to run(), or set by update_context on the calling task), in a new execution as well
+    as in the current one: differential against direct evaluation."""
+    from redun import Scheduler, task
+    from redun.config import Config
+    from redun.scheduler import subrun
+
+    import wf.tasks as T
+    from engine import seams
+
+    n = 0
+
+    @task(namespace="c38c", name="via_subrun")
+    def via_subrun(new_execution):
+        return subrun(T.cmid(1), executor="default", new_execution=new_execution, load_modules=["wf.tasks"])
+
+    @task(namespace="c38c", name="direct")
+    def direct():
+        return T.cmid(1)
+
+    for source in ("none", "run", "update_context", "both"):
+        outs = {}
+        for how in ("direct", "subrun-current", "subrun-new"):
+            db = seams.fresh_db_path("c38c")
+            try:
+                s = Scheduler(config=Config(config_dict={"backend": {"db_uri": f"sqlite:///{db}", "automigrate": "False"}}))
+                s.load(migrate=False)
+                t = direct if how == "direct" else via_subrun
+                if source in ("update_context", "both"):
+                    t = t.update_context(v="J")
+                expr = t() if how == "direct" else t(how == "subrun-new")
+                kw = {"context": {"v": "R"}} if source in ("run", "both") else {}
+                try:
+                    outs[how] = ("ok", repr(s.run(expr, **kw)))
+                except Exception as e:  # noqa: BLE001
+                    outs[how] = ("err", type(e).__name__, str(e))
+                seams.close_backend(s.backend)
+                n += 1
+            finally:
+                seams.remove_db(db)
+        want = {"none": "(1, 'none')", "run": "(1, 'R')", "update_context": "(1, 'J')", "both": "(1, 'J')"}[source]
+        for how, o in outs.items():
+            if o != ("ok", want):
+                ctx.violation(f"context:{how}-differs:context-from={source}", {"context_source": source, "how": how},
+                              f"cmid(1) reads context key v; context from {source}: {how} gives {o}, expected {want} (all: {outs})")
+    return n
+
+
 def run(ctx):
     import wf.tasks  # noqa: F401
 
@@ -158,11 +206,12 @@ def run(ctx):
     res = ctx.pmap_nondaemonic(work, ctx.rotate(work_items))
     check_harness_errors(res)
     ctx.add_results(res)
+    n_ctx = context_leg(ctx)
     kinds = Counter()
     for r in res:
         kinds.update(r["kinds"])
     return {"coverage": {
-        "evaluations": 2 * sum(r["n"] for r in res), "distinct_nontrivial": len(fam) * len(configs), "outcome_kinds": dict(kinds), "exhaustive": True,
+        "context_runs": n_ctx, "evaluations": 2 * sum(r["n"] for r in res) + n_ctx, "distinct_nontrivial": len(fam) * len(configs), "outcome_kinds": dict(kinds), "exhaustive": True,
         "rule": f"every generated program of size <= {ctx.pick(2, 3)} plus 4 larger shapes, wrapped as subrun(e, executor='default') and run twice on one "
         "SQLite repository with real thread executors, for (new_execution, cache, check_valid) in " + repr(configs) + "; oracle: both runs give the "
         "reference interpreter's outcome; the sub-scheduler runs exactly once in run 1, and again in run 2 whenever only CSE/ultimate hits could "
